@@ -262,6 +262,10 @@ def explore(pid, tier, seed, jobs=None):
         if len(total.samples) < 2 or ctx is results[-1] or ctx is results[len(results) // 2]:
             total.samples.extend(ctx.samples[:1] if len(total.samples) >= 2 else ctx.samples)
     total.nblocks = len(blocks)
+    if os.environ.get("MCX_TIMING"):
+        order = sorted(range(len(blocks)), key=lambda i: -results[i].wall)[:12]
+        for i in order:
+            print(f"TIMING block {i} wall={results[i].wall:.1f}s cases={results[i].cases} {jdump(blocks[i])[:200]}")
     total.src = src
     total.wall = time.time() - t0
     return mod, total
